@@ -4,7 +4,7 @@ Standard flow (theorems, harness, evaluator) plus the (T) step: the plugin table
 translated from main.go / plugin/*/*.go of the repository under test is compiled as a Coq term against
 the built development, the decidable side conditions of the theorems (`table_ok`, `flags_ok`) are
 re-established by vm_compute, and the general theorems are instantiated on that very table
-(`default_prefixes_unambiguous`, `actual_table_theorems`), so they speak about the table the code
+(`default_prefixes_unambiguous`, `actual_table_theorems`, `actual_table_plugin_prefix_equivariant`), so they speak about the table the code
 has now."""
 import json
 import os
@@ -14,7 +14,8 @@ import vcheck
 
 TABLE_CHECK = r"""
 From Coq Require Import String List Permutation.
-From Verif Require Import Prefix.Str Prefix.Dispatch Prefix.Names Prefix.TableFacts Properties.C12.
+From Verif Require Import Prefix.Str Prefix.Dispatch Prefix.Names Prefix.TableFacts Prefix.Gen Prefix.GenOrder
+  Prefix.GenClosure Prefix.GenCanon Prefix.GenFull Properties.C12.
 From C12Gen Require Import TableGen.
 Import ListNotations.
 
@@ -43,6 +44,37 @@ Theorem actual_table_theorems :
   map (effective derive_head []) table = table.
 Proof. exact (C12_table_theorems table table_is_ok). Qed.
 Print Assumptions actual_table_theorems.
+
+(* per-plugin prefixes on the table the code has now: for EVERY -prefix and -pluginprefix list the plugin
+   order is a permutation of the default one, and (any request relation, any calls handled by plugins of
+   the table) the customised run yields the default output up to order, the prefix renaming of the called
+   names and a one-to-one renaming of helper names; the emitted (plugin, class) are the closure of the calls *)
+Theorem actual_table_plugin_prefix_equivariant :
+  forall (T : Type) (T_eqb : T -> T -> bool), (forall a b, Bool.reflect (a = b) (T_eqb a b)) ->
+  forall (tyname : T -> str) (requests : nat -> T -> list (nat * T)) (nfuel : nat)
+         (global : str) (ovs : list (str * str)) (res res' : str -> bool) (L' : list str) fuel fuel'
+         (calls : list (nat * str * T)) out,
+  let table' := map (effective global ovs) table in
+  (forall q, closure T requests calls q -> fst q < length table) ->
+  (forall k n t, In (k, n, t) calls -> is_prefix (pfx_of table k) n = true) ->
+  (forall c, res' c = true -> In c L') -> length out + length L' < nfuel -> S (length out) < fuel' ->
+  run T T_eqb tyname requests nfuel (pfx_of table) res fuel (order table) calls = Some out ->
+  Permutation (order table) (order table') /\
+  exists out',
+    run T T_eqb tyname requests nfuel (pfx_of table') res' fuel' (order table')
+        (map (rn_call T (pfx_of table) (pfx_of table')) calls) = Some out' /\
+    renamed_output T (pfx_of table) (pfx_of table') calls out out' /\
+    (forall q, In q (map (ekey T) out) <-> closure T requests calls q) /\ NoDup (map (ekey T) out) /\
+    Permutation (map (ekey T) out') (map (ekey T) out).
+Proof.
+  intros T T_eqb spec tyname requests nfuel global ovs res res' L' fuel fuel' calls out table' Hk Hp Hr Hn Hf Hrun.
+  split; [apply C12_order_is_permutation; intros a; apply C12_effective_keeps_names|].
+  apply (C12_table_plugin_prefix_equivariant T T_eqb spec tyname requests nfuel table (effective global ovs)
+           res res' L' fuel fuel' calls out); auto.
+  - intros a. apply C12_effective_keeps_names.
+  - exact (table_distinct_names table table_is_ok).
+Qed.
+Print Assumptions actual_table_plugin_prefix_equivariant.
 """
 
 TABLE_DIAG = r"""
@@ -69,7 +101,8 @@ def table_step(rep, meta, scratch, gd, hb):
     os.makedirs(tdir, exist_ok=True)
     theories = os.path.join(vcheck.COQ, "theories")
     base = ["coqc", "-R", theories, "Verif", "-Q", tdir, "C12Gen"]
-    t_theorems = ["default_prefixes_unambiguous", "actual_table_dispatch_longest", "actual_table_theorems"]
+    t_theorems = ["default_prefixes_unambiguous", "actual_table_dispatch_longest", "actual_table_theorems",
+                  "actual_table_plugin_prefix_equivariant"]
     rep.coverage["obligations"] = rep.coverage.get("obligations", 0) + len(t_theorems)
     rep.coverage["theorems"] = list(rep.coverage.get("theorems", [])) + ["(T) " + t for t in t_theorems]
     rep.coverage["checker_cmd"] = rep.coverage.get("checker_cmd", "") + \
